@@ -23,6 +23,7 @@ import (
 	"encoding/xml"
 	"errors"
 	"fmt"
+	"html/template"
 	"io"
 	"net/http"
 	"net/http/httptest"
@@ -126,7 +127,32 @@ type IDPConf struct {
 	StaleKey      bool   `json:"stale_key,omitempty"` // with Signer: Key is ALSO set, to another (stale) private key; the Signer, whose public key the certificate carries, is what must be used
 	SigMethod     string `json:"sig_method,omitempty"`
 	Intermediates int    `json:"intermediates,omitempty"`
+	// configuration fields no clause of C05-C07 mentions: varied, never judged by themselves
+	Logout     bool `json:"logout,omitempty"`      // LogoutURL = Base + "/slo"
+	Login      bool `json:"login,omitempty"`       // LoginURL = Base + "/login"
+	ValidHours int  `json:"valid_hours,omitempty"` // ValidDuration (0 = unset)
+	Template   bool `json:"template,omitempty"`    // an own ResponseFormTemplate with a different page layout
+	Maker      bool `json:"maker,omitempty"`       // AssertionMaker set explicitly to DefaultAssertionMaker{}
 }
+
+// LogoutURL is the single-logout URL the IdP publishes when Logout is set.
+func (c IDPConf) LogoutURL() string { return c.Base + "/slo" }
+
+// LoginURL is the login page URL when Login is set.
+func (c IDPConf) LoginURL() string { return c.Base + "/login" }
+
+// OtherIdentifiers lists URLs of the same deployment that are NOT the SSO URL.
+func (c IDPConf) OtherIdentifiers() []string {
+	return []string{c.LogoutURL(), c.EntityID(), c.LoginURL(), c.Base, c.Base + "/"}
+}
+
+// an equivalent page with another layout: extra markup around, fields in another order
+var altFormTemplate = template.Must(template.New("alt-saml-post-form").Parse(`<!DOCTYPE html><html><head><title>Continue</title></head><body>` +
+	`<p>Signing you in &hellip;</p><form id="f" action="{{.URL}}" method="POST">` +
+	`<div><input type="hidden" name="RelayState" value="{{.RelayState}}"></div>` +
+	`<div><input type="hidden" name="SAMLResponse" value="{{.SAMLResponse}}"></div>` +
+	`<noscript><button type="submit">Continue</button></noscript></form>` +
+	`<script>document.getElementById('f').submit();</script></body></html>`))
 
 // Keys returns the fixture pair of the configuration.
 func (c IDPConf) Keys() *fix.KeyPair {
@@ -176,7 +202,31 @@ func (c IDPConf) Build(reg saml.ServiceProviderProvider, sess saml.SessionProvid
 	for i := 0; i < c.Intermediates && i < len(extra); i++ {
 		idp.Intermediates = append(idp.Intermediates, fix.Get(extra[i]).Cert)
 	}
+	if c.Logout {
+		u, _ := url.Parse(c.LogoutURL())
+		idp.LogoutURL = *u
+	}
+	if c.Login {
+		u, _ := url.Parse(c.LoginURL())
+		idp.LoginURL = *u
+	}
+	if c.ValidHours != 0 {
+		d := time.Duration(c.ValidHours) * time.Hour
+		idp.ValidDuration = &d
+	}
+	if c.Template {
+		idp.ResponseFormTemplate = altFormTemplate
+	}
+	if c.Maker {
+		idp.AssertionMaker = saml.DefaultAssertionMaker{}
+	}
 	return idp
+}
+
+// GenExtras fills the configuration fields no clause mentions from four drawn integers.
+func (c IDPConf) WithExtras(logout, login bool, validHours int, tmpl, maker bool) IDPConf {
+	c.Logout, c.Login, c.ValidHours, c.Template, c.Maker = logout, login, validHours, tmpl, maker
+	return c
 }
 
 // ---------------------------------------------------------------- sessions
@@ -774,8 +824,8 @@ func SortedKeys[V any](m map[string]V) []string {
 
 // ---------------------------------------------------------------- ACS selection oracle (C05, C06)
 
-// CanonicalInt matches the canonical decimal spelling of a non-negative integer.
-var CanonicalInt = regexp.MustCompile(`^(0|[1-9][0-9]*)$`)
+// CanonicalInt matches the canonical decimal spelling of an integer (what strconv.Itoa writes).
+var CanonicalInt = regexp.MustCompile(`^(0|-?[1-9][0-9]*)$`)
 
 // InSet reports whether b is one of set.
 func InSet(b string, set ...string) bool {
@@ -933,4 +983,26 @@ func CleanStack(stack []byte, max int) string {
 		}
 	}
 	return strings.Join(out, "\n")
+}
+
+// AllowedTargets derives, from the request and the registered metadata alone
+// (nothing the implementation stored), the Locations a response form may be
+// posted to: the Location of every registered HTTP-POST endpoint that the
+// selection rule admits for this request.  initiated = IdP-initiated launch
+// (any registered HTTP-POST endpoint).
+func AllowedTargets(md *saml.EntityDescriptor, reqIndex, reqURL *string, initiated bool) []string {
+	var out []string
+	for _, e := range AllACS(md) {
+		e := e
+		if e.Binding != saml.HTTPPostBinding {
+			continue
+		}
+		if !initiated {
+			if complaint, _ := JudgeSelection(&e, md, reqIndex, reqURL); complaint != "" {
+				continue
+			}
+		}
+		out = append(out, e.Location)
+	}
+	return out
 }
